@@ -323,6 +323,36 @@ impl Ind {
     pub fn reset(&mut self) {
         each!(self, i => i.reset())
     }
+    /// `self.clone_from(src)` on the wrapped indicator itself (Clone::clone_from may be overridden by the type);
+    /// returns false if the two are of different kinds.
+    pub fn clone_from_ind(&mut self, src: &Ind) -> bool {
+        match (self, src) {
+            (Ind::Sma(a), Ind::Sma(b)) => a.clone_from(b),
+            (Ind::Wma(a), Ind::Wma(b)) => a.clone_from(b),
+            (Ind::Sd(a), Ind::Sd(b)) => a.clone_from(b),
+            (Ind::Mad(a), Ind::Mad(b)) => a.clone_from(b),
+            (Ind::Min(a), Ind::Min(b)) => a.clone_from(b),
+            (Ind::Max(a), Ind::Max(b)) => a.clone_from(b),
+            (Ind::Ema(a), Ind::Ema(b)) => a.clone_from(b),
+            (Ind::Tr(a), Ind::Tr(b)) => a.clone_from(b),
+            (Ind::Atr(a), Ind::Atr(b)) => a.clone_from(b),
+            (Ind::Macd(a), Ind::Macd(b)) => a.clone_from(b),
+            (Ind::Ppo(a), Ind::Ppo(b)) => a.clone_from(b),
+            (Ind::Rsi(a), Ind::Rsi(b)) => a.clone_from(b),
+            (Ind::Fs(a), Ind::Fs(b)) => a.clone_from(b),
+            (Ind::Ss(a), Ind::Ss(b)) => a.clone_from(b),
+            (Ind::Roc(a), Ind::Roc(b)) => a.clone_from(b),
+            (Ind::Er(a), Ind::Er(b)) => a.clone_from(b),
+            (Ind::Bb(a), Ind::Bb(b)) => a.clone_from(b),
+            (Ind::Kc(a), Ind::Kc(b)) => a.clone_from(b),
+            (Ind::Ce(a), Ind::Ce(b)) => a.clone_from(b),
+            (Ind::Cci(a), Ind::Cci(b)) => a.clone_from(b),
+            (Ind::Mfi(a), Ind::Mfi(b)) => a.clone_from(b),
+            (Ind::Obv(a), Ind::Obv(b)) => a.clone_from(b),
+            _ => return false,
+        }
+        true
+    }
     pub fn display(&self) -> String {
         each!(self, i => format!("{}", i))
     }
